@@ -108,3 +108,162 @@ pub fn spawn(ctx: &mut Ctx) {
     ctx.verdict.nontrivial = true;
     ctx.verdict.shape = simkit::with(|s| s.sched_hash);
 }
+
+/// Pool closures that wait for the async side, for each other and for a timeout: only
+/// possible when the closures run on threads of their own (simkit::threads). Every scenario
+/// has one right answer whatever the schedule.
+pub fn block(ctx: &mut Ctx) {
+    use std::sync::mpsc;
+    use std::sync::{Arc, Condvar, Mutex};
+    crate::scen::draw_schedule();
+    let which = crate::gen::draw(6);
+    let n = 1 + crate::gen::draw(6) as u64;
+    simkit::with(|s| s.event("xblock", which as u64, n));
+    let observed: Arc<Mutex<Vec<u64>>> = Arc::new(Mutex::new(Vec::new()));
+    let obs = observed.clone();
+    let r = crate::cli::run_async(async move {
+        match which {
+            0 => {
+                // a digest worker fed through a channel; the sender is dropped at the end
+                let (tx, rx) = mpsc::channel::<u64>();
+                let h = tokio::task::spawn_blocking(move || {
+                    let mut sum = 0;
+                    while let Ok(v) = rx.recv() {
+                        obs.lock().unwrap().push(v);
+                        sum += v;
+                    }
+                    sum
+                });
+                for i in 1..=n {
+                    tx.send(i).unwrap();
+                    if i % 2 == 0 {
+                        tokio::task::yield_now().await;
+                    }
+                }
+                drop(tx);
+                h.await.unwrap() == n * (n + 1) / 2
+            }
+            1 => {
+                // two closures talk to each other, the async side only waits for both
+                let (tx, rx) = mpsc::sync_channel::<u64>(1);
+                let a = tokio::task::spawn_blocking(move || {
+                    for i in 0..n {
+                        tx.send(i).unwrap();
+                    }
+                });
+                let b = tokio::task::spawn_blocking(move || {
+                    let mut got = Vec::new();
+                    while let Ok(v) = rx.recv() {
+                        got.push(v);
+                    }
+                    got
+                });
+                a.await.unwrap();
+                b.await.unwrap() == (0..n).collect::<Vec<_>>()
+            }
+            2 => {
+                // Mutex + Condvar: the closure waits until the async side has set the flag
+                let pair = Arc::new((Mutex::new(false), Condvar::new()));
+                let p2 = pair.clone();
+                let h = tokio::task::spawn_blocking(move || {
+                    let (m, c) = &*p2;
+                    let mut g = m.lock().unwrap();
+                    while !*g {
+                        g = c.wait(g).unwrap();
+                    }
+                    7u64
+                });
+                for _ in 0..n {
+                    tokio::task::yield_now().await;
+                }
+                {
+                    let (m, c) = &*pair;
+                    *m.lock().unwrap() = true;
+                    c.notify_all();
+                }
+                h.await.unwrap() == 7
+            }
+            3 => {
+                // the simulator thread itself has to wait: the closure holds a lock while it
+                // waits for a message, the async side sends the message and takes the lock
+                let m = Arc::new(Mutex::new(0u64));
+                let m2 = m.clone();
+                let (tx, rx) = mpsc::channel::<u64>();
+                let (started_tx, started_rx) = mpsc::channel::<()>();
+                let h = tokio::task::spawn_blocking(move || {
+                    let mut g = m2.lock().unwrap();
+                    let _ = started_tx.send(());
+                    *g = rx.recv().unwrap();
+                });
+                // wait (asynchronously) until the closure holds the lock
+                // (a timer, not a spin: under the lazy schedule queued closures only start
+                // when the main task is idle)
+                while started_rx.try_recv().is_err() {
+                    tokio::time::sleep(std::time::Duration::from_millis(1)).await;
+                }
+                tx.send(n).unwrap();
+                let seen = *m.lock().unwrap();
+                h.await.unwrap();
+                seen == n
+            }
+            4 => {
+                // a timed wait that nobody satisfies: virtual time passes, no real time
+                let (_tx, rx) = mpsc::channel::<u64>();
+                let t0 = simkit::now_ns();
+                let h = tokio::task::spawn_blocking(move || rx.recv_timeout(std::time::Duration::from_millis(40 * n)).is_err());
+                let timed_out = h.await.unwrap();
+                timed_out && simkit::now_ns() - t0 >= 40_000_000 * n
+            }
+            _ => {
+                // detached digest worker whose handle is dropped: the runtime waits for it at
+                // shutdown once its channel is closed
+                let (tx, rx) = mpsc::channel::<u64>();
+                let o2 = obs.clone();
+                drop(tokio::task::spawn_blocking(move || {
+                    while let Ok(v) = rx.recv() {
+                        o2.lock().unwrap().push(v);
+                    }
+                    o2.lock().unwrap().push(1000);
+                }));
+                for i in 0..n {
+                    tx.send(i).unwrap();
+                    tokio::task::yield_now().await;
+                }
+                true
+            }
+        }
+    });
+    let seen = observed.lock().unwrap().clone();
+    match r {
+        Ok(simkit::exec::End::Done(true)) => {
+            if which == 5 {
+                // the closure may not have been started at all (dropped at shutdown), but if it
+                // ran, it ran to its end
+                let ok = seen.is_empty() || (seen.last() == Some(&1000) && seen.len() as u64 == n + 1);
+                if !ok {
+                    ctx.fail("block-selftest:detached", format!("{:?}", seen));
+                }
+            }
+        }
+        other => ctx.fail("block-selftest", format!("scenario {} n {}: {:?}", which, n, other.map(|e| format!("{:?}", e.kind())))),
+    }
+    // a closure nobody will ever wake: the command must end as a deadlock, not hang the worker
+    if which == 0 && n == 1 {
+        let blocked_before = simkit::with(|s| s.counters.get("sim:closure-blocked").copied().unwrap_or(0));
+        let r = crate::cli::run_async(async {
+            let (tx, rx) = mpsc::channel::<u64>();
+            std::mem::forget(tx);
+            drop(tokio::task::spawn_blocking(move || rx.recv().is_ok()));
+            tokio::task::yield_now().await;
+            tokio::task::yield_now().await;
+        });
+        let started = simkit::with(|s| s.counters.get("sim:closure-blocked").copied().unwrap_or(0)) > blocked_before;
+        match r {
+            Ok(simkit::exec::End::Deadlock) => {}
+            Ok(simkit::exec::End::Done(())) if !started => {}
+            other => ctx.fail("block-selftest:never-woken", format!("{:?}", other.map(|e| format!("{:?}", e.kind())))),
+        }
+    }
+    ctx.verdict.nontrivial = true;
+    ctx.verdict.shape = simkit::with(|s| s.sched_hash);
+}
